@@ -384,6 +384,39 @@ func runRestStep(sv *restServer, s restStep) (labels []string, nt bool, err erro
 		if r.Status != 200 || r.JSON["valid"] != true {
 			return fail("POST /totp/validate without timestamp rejects the code of the current hour: %s -> %s", body, r.brief())
 		}
+		// ... and the omitted skew means 0: right after a step has begun the code of the step that has just ended is no longer
+		// valid (a period is picked in which the current step began at most a second ago; the code of the step before it
+		// is a wrong code under skew 0 whichever of the next seconds the server reads)
+		for try := 0; try < 3; try++ {
+			now = uint64(time.Now().Unix())
+			var per uint64
+			for p := uint64(3599); p >= 11; p-- {
+				if now%p <= 1 && now/p >= 2 {
+					per = p
+					break
+				}
+			}
+			if per == 0 {
+				break
+			}
+			prev := ref.MustHOTP(s.Key, now/per-1, d, a)
+			if prev == ref.MustHOTP(s.Key, now/per, d, a) || prev == ref.MustHOTP(s.Key, now/per+1, d, a) {
+				continue
+			}
+			w := s
+			w.HasTS, w.HasPer, w.Per, w.HasSkew = false, true, per, false
+			body = w.body(map[string]any{"code": prev})
+			t0 := time.Now()
+			r = post("/totp/validate", body)
+			if time.Since(t0) > 5*time.Second || uint64(time.Now().Unix())/per != now/per {
+				continue // the answer took so long that the step may have changed: try another period
+			}
+			if v, _ := r.JSON["valid"].(bool); r.Status == 200 && v {
+				return fail("POST /totp/validate without timestamp and without skew accepts the code of the step that ended %d s ago (period %d): %s -> %s; the library's verdict for skew 0 is false", now%per, per, body, r.brief())
+			}
+			labels = append(labels, "just-after-a-step-began")
+			break
+		}
 		return labels, true, nil
 	case "chain-ocra-both":
 		// raw_suite AND a structured suite in one request: which one wins is not specified, but the code
